@@ -214,7 +214,10 @@ NONINTEGRAL = 987654321      # stands for a non-integral real where the specific
 def validate_traces(module, event_files, cfg=None, timeout=1500, heap="3g", env=None):
     """Validate each event file against the trace specification (one TLC per file, in parallel).
     Returns (mismatches, stats) where each mismatch is dict(event=<event>, expect=..., why=..., file=..., l=...)."""
-    def one(ef):
+    # bisection is sound only for trace specifications whose events are independent of each other (one state per event)
+    multi_event_ok = module in ("TraceOps", "TraceStatic", "TraceSimd")
+
+    def one(ef, depth=0):
         n = sum(1 for _ in open(ef))
         if n == 0:
             return ef, [], dict(generated=0, distinct=0, events=0)
@@ -243,6 +246,27 @@ def validate_traces(module, event_files, cfg=None, timeout=1500, heap="3g", env=
         r = tlc(module, cfg, workers=1, env=e, timeout=timeout, heap=heap, label=os.path.basename(ef))
         if not r["ok"] or not os.path.exists(bad):
             tail = "\n".join(r["out"].splitlines()[-60:])
+            # An observation the specification cannot even evaluate (a garbage extent that overflows TLC's integers, an ill-typed
+            # value) is not a behaviour of the specification: isolate the offending event by bisection and report it as a
+            # mismatch.  Anything else (time-out, memory, a parse error of the specification) stays inconclusive.
+            evaluation_error = any(k in r["out"] for k in ("Overflow", "Attempted to", "unable to fingerprint", "was not in the domain", "nonexistent field"))
+            lines = [l for l in open(ef_tlc) if l.strip()]
+            if evaluation_error and depth < 14 and len(lines) >= 1 and multi_event_ok:
+                if len(lines) == 1:
+                    ev = json.loads(open(ef).readline())
+                    return ef, [dict(l=1, id=ev.get("id"), why="the specification cannot evaluate this observation (ill-typed or overflowing value): not a behaviour of the specification",
+                                     expect=dict(ok=True, note="see TLC error"), event=ev, file=ef)], dict(generated=1, distinct=1, events=1)
+                orig = [l for l in open(ef) if l.strip()]
+                mid = len(lines) // 2
+                out = []; st = dict(generated=0, distinct=0, events=0)
+                for part, (a, b) in enumerate(((0, mid), (mid, len(lines)))):
+                    pf = f"{ef}.p{depth}_{part}"
+                    with open(pf, "w") as f: f.writelines(orig[a:b])
+                    _, res_p, st_p = one(pf, depth + 1)
+                    for m in res_p: m["file"] = ef
+                    out.extend(res_p)
+                    for k in st: st[k] += st_p[k]
+                return ef, out, st
             raise Inconclusive(f"trace validation {module} on {ef} did not complete (rc={r['rc']}):\n{tail}")
         evs = [json.loads(l) for l in open(ef) if l.strip()]
         res = []
